@@ -52,12 +52,12 @@ def tie_scenarios(g, n):
     return out
 
 
-def determinism(R, tree, search, replace, stats, fails, quick, i, reps=None):
+def determinism(R, tree, search, replace, stats, fails, quick, i, reps=None, extra_args=()):
     with cli.Sandbox(tree) as sb:
         ref = None
         for nt in stats["thread_counts"]:
             for rep in range(reps or (2 if quick else 5)):
-                rc, o, e = sb.run(["--no-auto-init", "plan", search, replace, "--dry-run", "--output", "json", "--quiet"],
+                rc, o, e = sb.run(["--no-auto-init", "plan", search, replace, "--dry-run", "--output", "json", "--quiet"] + list(extra_args),
                                   env={"RAYON_NUM_THREADS": str(nt)})
                 stats["determinism_runs"] += 1
                 if rc != 0:
@@ -180,6 +180,15 @@ def run(R):
         ptree += [{"p": f_, "k": "f", "c": (s_ + " here\n").encode(), "m": 0o644}]
         determinism(R, ptree, s_, r_, stats, fails, quick, 2000 + k, reps=2 if quick else 4)
         stats["probe_name_scenarios"] = stats.get("probe_name_scenarios", 0) + 1
+    # several search roots (distinct, nested with a glob, repeated): their order on the command line is the order of the report
+    for k in range(2 if quick else 10):
+        a_, b_ = g.term_pair()
+        s_, r_ = gen.render(a_, "Snake"), gen.render(b_, "Snake")
+        rtree = [{"p": d_, "k": "d", "m": 0o755} for d_ in ("alpha", "beta", "src", "src/deep")] + \
+                [{"p": f"{d_}/{s_}_{j}.rs", "k": "f", "c": (s_ + " here\n").encode(), "m": 0o644} for d_ in ("alpha", "beta", "src", "src/deep") for j in range(2)]
+        for roots in (["alpha", "beta"], ["beta", "alpha", "src"], [".", "src", "--include", "src/**"], ["src", "src/deep", "alpha"]):
+            determinism(R, rtree, s_, r_, stats, fails, quick, 3000 + k, reps=2 if quick else 4, extra_args=roots)
+            stats["multi_root_scenarios"] = stats.get("multi_root_scenarios", 0) + 1
     for k, (tree, search, replace) in enumerate(tie_scenarios(g, 2 if quick else 12)):
         determinism(R, tree, search, replace, stats, fails, quick, 1000 + k, reps=4 if quick else 8)
         stats["tie_scenarios"] = stats.get("tie_scenarios", 0) + 1
